@@ -498,9 +498,18 @@ def fixed_replays():
         for f in json.loads(p.read_text())["findings"]:
             r = f.get("replay")
             if isinstance(r, dict) and "call" in r:
-                out.append({k: v for k, v in r.items() if k in
-                            ("call", "idx", "xs", "op", "maxnan", "interp", "year", "month", "vals")})
+                out.append(clean_case(r))
     return out
+
+
+def clean_case(r):
+    """case dict of a replay / corpus file: input fields only; null stands for NaN"""
+    case = {k: v for k, v in r.items() if k in
+            ("call", "idx", "xs", "op", "maxnan", "interp", "year", "month", "vals")}
+    for k in ("xs", "vals"):
+        if k in case:
+            case[k] = [NAN if v is None else float(v) for v in case[k]]
+    return case
 
 
 def run(ctx):
@@ -569,8 +578,8 @@ def run(ctx):
     if getattr(ctx, "replay", None):
         r = ctx.replay.get("replay", ctx.replay)
         if isinstance(r, dict) and "call" in r:
-            extra.append({k: v for k, v in r.items() if k != "impl"})
-    for case in extra + cm.load_corpus(PID) + fixed_replays():
+            extra.append(clean_case(r))
+    for case in extra + [clean_case(c) for c in cm.load_corpus(PID)] + fixed_replays():
         if case.get("call") in ("aggregate", "flathomogen", "monthly2daily"):
             do_case(case)
 
